@@ -308,7 +308,7 @@ fn annotate(p: &Prog, k: u64) -> Option<(Prog, String)> {
     let float_fns: Vec<String> = p.items.iter().filter_map(|it| if let Item::Fn(f) = it { (f.ret == Shape::F).then(|| f.name.clone()) } else { None }).collect();
     let is_float_expr = |e: &E| match e {
         E::Num(_) | E::Bin(..) | E::Mem(..) | E::Delay(..) | E::Math(..) | E::Now | E::Sr | E::Neg(_) => true,
-        E::Call(n, _, _) => float_fns.contains(n) && !["mkadd", "mkcounter", "gc", "gadd"].contains(&n.as_str()),
+        E::Call(n, _, _) => float_fns.contains(n) && !["mkadd", "mkcounter", "gc", "gadd", "mkrec"].contains(&n.as_str()),
         _ => false,
     };
     // the dsp input and the float locals of the aggregate family (`p<digits>`)
